@@ -109,7 +109,10 @@ def main(argv) -> int:
         for prop, pr in r["props"].items():
             flag = "DETECTED" if pr["detected"] else "missed"
             if prop == primary and not pr["detected"]:
-                missed += 1
+                if m.get("expect", "").startswith("miss"):
+                    flag = "missed (expected)"
+                else:
+                    missed += 1
             print(f"{m['id']:45s} {prop} {flag:8s} exit={pr['exit']} {pr['wall_s']}s replays={pr.get('replays_reproduced')}/"
                   f"{(pr.get('replays_reproduced') or 0) + (pr.get('replays_not_reproduced') or 0)} {pr['signatures'][:2]}", flush=True)
         if r.get("error"):
